@@ -22,13 +22,7 @@ PROPS = {
     "C14": dict(extra_trusted=["loop-cut rewrite of spectral_layout_die (power iteration cut to one arbitrary iteration, loop over the dimensions restricted to one chosen iteration; printed in the evidence)",
                                 "inside the loop-cut runs normalize is its contract and orthogonalize's internal self-check is discharged by its leaf obligation (same sizes)",
                                 "random.uniform(a, b) returns some value in [a, b]",
-                                "NOT proved: an entry that is negligible (|x| <= 1e-6 span) at its last normalization ends inside its span; termination below the cap; rounding"],
-                explanation="The API-level statement is split along the call chain. normalize, orthogonalize, calculate_centroids and wirelength are verified "
-                            "against their definitions for all values; spectral_layout_die is verified by invariants of its two loops (mechanical loop cuts, "
-                            "base case and inductive step) for all die sizes, masses, weights, initial and random coordinates; Spectral.spectral_layout is "
-                            "verified against that contract (discs inside the die, fixed modules untouched, hard modules rigid, areas and nets unchanged). "
-                            "The invariant carries a disjunct (entry negligible at its last normalization) that no contract within SMT reach removes; it, "
-                            "rounding and the iteration cap are covered only by the bounded float leg through the unmodified tool."),
+                                "NOT proved: absence of degenerate arithmetic (ZeroDivisionError / ValueError allowed by the contracts); rounding; bounded float leg only"]),
     "C15": dict(extra_trusted=["brute-force oracles written for this check (decomposability, polygon tracing)"]),
     "C16": dict(extra_trusted=["operands in normal form with symbolic positive coefficients over an enumerated variable structure"]),
     "C17": dict(extra_trusted=["acos/sin uninterpreted with range and sin(acos x)=sqrt(1-x^2) axioms", "delta-mode: IEEE-754 standard model without under/overflow",
